@@ -28,7 +28,7 @@ RULE = ('(a) link store: _set_ast / _set_field / _unmake_fst_tree / _make_fst_tr
         '(_start, _stop) after every editing method vs the Lean model - first deterministically for every window [s:e) and [s:] of 3-element fields x every method, then random sequences; (e) put_line_comment / put_src(action=None) / slice puts to Call, ClassDef, MatchClass / unpar() that overwrites '
         'parentheses in place, on real nodes with sentinel cache entries: every cache the model of the call site '
         '(_touchall(parents[,self]) resp. touch of every direct child) '
-        'clears must be cleared (superset allowed); (f) deterministic product run first: every virtual field (arguments._all with every marker shape, Call._args, ClassDef._bases, Dict._all, MatchMapping._all, MatchClass._attrs, Compare._all) x every span x cut / delete / copy / view cut / view delete / put and view-assign of new elements (every span incl. empty ones, several codes per field), all queries on all nodes before, full check after, and the post-state must be a fixed point of the Lean renumbering loop; (g) deterministic product: 16 list-field kinds x kept view kinds (whole field, [:2], [1:], [1:3], [1:1]) x edit through the kept view (cut, remove, del [:], append, prepend, insert, extend, del [0], none) x growth/shrink through another handle; after every step len / items / start_and_stop of the kept view vs a fresh view on a fresh parse (a whole-field view is always the whole field); kept views are also created and used inside the random histories; (h) deterministic products with the full check: 14 f-string shapes (PEP 701 nesting, format specs with nested fields, = debug, conversions, multi-line, implicit concatenation, multi-byte text before the fields) x every operand inside a field x 5 replacement texts of other lengths; 13 block-statement shapes (match, try with every clause combination, except*, with/async with, for/while else, if/elif/else, decorated def/class with type params) x every header expression x raw replace (raw=True) and put_src(reparse); both also as random history steps; (i) deterministic product: separated sequences in 17 enclosing contexts (undelimited Tuple as subscript index / comprehension target / assignment target index, List, Tuple, Set, Dict, Call args, class bases, def parameters, import names, with items, del targets, match sequences) x 7 layouts (one line, one per line, own-line comments before elements, trailing comments, leading comment, mixed, multi-byte) x every proper span deleted or cut x trivia default / False / all, plus par() / par(force) / unpar() / unpar(node) / par-then-unpar on the sequence and on its first and last element, in 10 layouts (three with multi-byte identifiers on only the first or only the last line), full check with CPython as position judge; (j) deterministic product: 15 statement sources with strings whose value depends on the indentation of continuation lines (backslash-continued and multi-line docstrings, class/method docstrings, non-first strings, raw/unicode/bytes/f-strings, assigned and parenthesised strings) put by append / insert / put_slice / replace into blocks of depth 0-3 with 2-space, 3-space, 4-space, 8-space and tab indentation, with docstr default / True / strict / False; the same statements cut out of one depth and put back as FST objects at another; elif -> else-if conversion of a subtree holding such strings; Constant values judged by CPython; (d) random edit histories (replace / remove / '
+        'clears must be cleared (superset allowed); (f) deterministic product run first: every virtual field (arguments._all with every marker shape, Call._args, ClassDef._bases, Dict._all, MatchMapping._all, MatchClass._attrs, Compare._all) x every span x cut / delete / copy / view cut / view delete / put and view-assign of new elements (every span incl. empty ones, several codes per field), all queries on all nodes before, full check after, and the post-state must be a fixed point of the Lean renumbering loop; (g) deterministic product: 16 list-field kinds x kept view kinds (whole field, [:2], [1:], [1:3], [1:1]) x edit through the kept view (cut, remove, del [:], append, prepend, insert, extend, del [0], none) x growth/shrink through another handle; after every step len / items / start_and_stop of the kept view vs a fresh view on a fresh parse (a whole-field view is always the whole field); kept views are also created and used inside the random histories; (h) deterministic products with the full check: 14 f-string shapes (PEP 701 nesting, format specs with nested fields, = debug, conversions, multi-line, implicit concatenation, multi-byte text before the fields) x every operand inside a field x 5 replacement texts of other lengths; 13 block-statement shapes (match, try with every clause combination, except*, with/async with, for/while else, if/elif/else, decorated def/class with type params) x every header expression x raw replace (raw=True) and put_src(reparse); 12 multi-line statements that do not start at column 0 (after a semicolon, on a block header line) with multi-byte text before them x every ASCII name inside x the same two raw edits; both also as random history steps; (i) deterministic product: separated sequences in 17 enclosing contexts (undelimited Tuple as subscript index / comprehension target / assignment target index, List, Tuple, Set, Dict, Call args, class bases, def parameters, import names, with items, del targets, match sequences) x 7 layouts (one line, one per line, own-line comments before elements, trailing comments, leading comment, mixed, multi-byte) x every proper span deleted or cut x trivia default / False / all, plus par() / par(force) / unpar() / unpar(node) / par-then-unpar on the sequence and on its first and last element, in 10 layouts (three with multi-byte identifiers on only the first or only the last line), full check with CPython as position judge; (j) deterministic product: 15 statement sources with strings whose value depends on the indentation of continuation lines (backslash-continued and multi-line docstrings, class/method docstrings, non-first strings, raw/unicode/bytes/f-strings, assigned and parenthesised strings) put by append / insert / put_slice / replace into blocks of depth 0-3 with 2-space, 3-space, 4-space, 8-space and tab indentation, with docstr default / True / strict / False; the same statements cut out of one depth and put back as FST objects at another; elif -> else-if conversion of a subtree holding such strings; Constant values judged by CPython; (d) random edit histories (replace / remove / '
         'insert / append / prepend / put_slice / put_src offset / put_src(action=None) on comment- and whitespace-only line tails / '
         'put_line_comment (add, replace shorter/longer/multi-byte, delete, full=True; statements ending 0..n enclosing blocks) / '
         'put_docstr (add, replace, delete, multi-line) / par / unpar (meaning-preserving calls only) / edits through windowed views; norm=True) on corpus '
